@@ -41,6 +41,8 @@ Grid(r, c, special, at) ==                               \* all cells plain exce
 TableShapes ==
     { Grid(r, c, s, at) : r \in 1..2, c \in 1..2, s \in Cells, at \in 1..4 }
     \cup { Grid(2, 3, <<>>, 2) }       \* 2 x 3, the middle cell of the first row empty (writers may render it as a merge)
+    \cup { <<"tbl", << << <<P1>>, <<>>, <<P1>> >>, << <<>>, <<>>, <<P1>> >> >>>> }   \* [[A, -, B], [-, -, C]]: HTML writes A as ONE
+                                                                                  \* cell spanning two columns AND two rows
     \cup { <<"tbl", << << <<P1>> >>, << <<P1>>, <<P1>>, <<P1>> >> >>>> }      \* ragged: a one-cell first row above a three-cell row
     \cup { <<"tbl", << << <<>>, <<>> >> >>>>,                                  \* blank grids (a form to fill in): tables all the same
            <<"tbl", << << <<>>, <<>> >>, << <<>>, <<>> >> >>>> }
